@@ -468,22 +468,15 @@ def _position_finder(x_matrix):
     :return: list of qubit positions to apply the Hadamard on
     :rtype: list
     """
-    pivot = [0, 0]
-    n = x_matrix.shape[0]
-    pos_list = []
-    while pivot[0] < n and pivot[1] < n:
-        try:
-            if x_matrix[pivot[0] + 1, pivot[1]] == 1:
-                pivot = [pivot[0] + 1, pivot[1]]
-            if x_matrix[pivot[0] + 1, pivot[1] + 1] == 1:
-                pivot = [pivot[0] + 1, pivot[1] + 1]
-            else:
-                pivot = [pivot[0], pivot[1] + 1]
-                pos_list.append(pivot[1])
-        except:
-            break
-
-    return pos_list
+    # the X matrix is in row echelon form: the qubits that need a Hadamard are the columns in which no row has
+    # its leading one (this includes the first column, which the former staircase walk never reported)
+    n_column = x_matrix.shape[1]
+    pivot_columns = set()
+    for row in x_matrix:
+        non_zero = np.nonzero(row)[0]
+        if len(non_zero) > 0:
+            pivot_columns.add(int(non_zero[0]))
+    return [column for column in range(n_column) if column not in pivot_columns]
 
 
 def _graph_finder(x_matrix, z_matrix, get_ops_data=False):
